@@ -247,11 +247,10 @@ pub fn check(prop: &str, tier: &str) -> Option<Report> {
         w.extend(lib_worlds(1));
       }
       // the same histories with the crate's own Subject as the hot source
-      let subj: Vec<World> = w
-        .iter()
-        .filter(|x| x.srcs[0] == SrcKind::Hot)
-        .map(|x| World { srcs: vec![SrcKind::Subject], acts: x.acts.clone() })
-        .collect();
+      let mut subj: Vec<World> = vec![];
+      for k in [SrcKind::Subject, SrcKind::BehaviorSubject, SrcKind::ReplaySubject] {
+        subj.extend(w.iter().filter(|x| x.srcs[0] == SrcKind::Hot).map(|x| World { srcs: vec![k.clone()], acts: x.acts.clone() }));
+      }
       w.extend(subj);
       let oracle = match prop {
         "C05" => vec![Oracle::Unsub],
